@@ -138,6 +138,9 @@ func (td *ttypedef) yang(indent string) string {
 type c02gen struct {
 	r   *core.Rng
 	seq int
+	// the enum / bits list of the chain being generated and the values RFC 7950 assigns
+	curNames []tenum
+	curVals  map[string]int
 	// typedefs by placement
 	module, sub, lib []*ttypedef
 }
@@ -172,21 +175,75 @@ var c02families = []c02family{
 			}
 		}, []string{"abcz", "amz"}, true},
 	{"enumeration", func(g *c02gen) *texpr {
-		return &texpr{name: "enumeration", enums: []tenum{{"zero", nil}, {"five", ip(5)}, {"six", nil}, {"neg", ip(-3)}, {"seven", nil}, {"nul", ip(0)}, {"eight", nil}}}
+		g.curNames, g.curVals = c02randomNumbered(g.r, "e", -6, 20)
+		return &texpr{name: "enumeration", enums: g.curNames}
 	}, func(g *c02gen, lv int, t *texpr) {
-		// YANG 1.1: a derived type keeps a subset, values as in the base
-		t.enums = [][]tenum{{{"five", nil}, {"six", nil}, {"eight", nil}}, {{"six", nil}, {"eight", nil}}, {{"eight", nil}}}[lv%3]
-	}, []string{"eight"}, true},
+		// YANG 1.1: a derived type keeps a subset, values as in the base; some restate their value
+		t.enums = c02subset(g)
+	}, nil, true},
 	{"bits", func(g *c02gen) *texpr {
-		return &texpr{name: "bits", bits: []tenum{{"b0", nil}, {"b4", ip(4)}, {"b5", nil}, {"bz", ip(0)}, {"b6", nil}}}
+		g.curNames, g.curVals = c02randomNumbered(g.r, "b", 0, 20)
+		return &texpr{name: "bits", bits: g.curNames}
 	}, func(g *c02gen, lv int, t *texpr) {
-		t.bits = [][]tenum{{{"b4", nil}, {"b6", nil}}, {{"b6", nil}}}[lv%2]
+		t.bits = c02subset(g)
 	}, nil, false},
 	{"decimal64", func(g *c02gen) *texpr { return &texpr{name: "decimal64", fd: ip(3)} },
 		func(g *c02gen, lv int, t *texpr) { t.rng = sp([]string{"0..100", "1..50.5"}[lv%2]) }, []string{"2.5"}, true},
 	{"boolean", func(g *c02gen) *texpr { return &texpr{name: "boolean"} }, func(g *c02gen, lv int, t *texpr) {}, []string{"true"}, false},
 	{"identityref", func(g *c02gen) *texpr { return &texpr{name: "identityref", bases: []string{"idbase"}} }, func(g *c02gen, lv int, t *texpr) {}, nil, false},
 	{"leafref", func(g *c02gen) *texpr { return &texpr{name: "leafref", path: sp("/target")} }, func(g *c02gen, lv int, t *texpr) {}, nil, false},
+}
+
+// a random list of names with stated and missing values whose RFC 7950 numbering has no duplicates
+func c02randomNumbered(r *core.Rng, prefix string, lo, hi int) ([]tenum, map[string]int) {
+	for {
+		n := 2 + r.Intn(5)
+		var out []tenum
+		vals := map[string]int{}
+		seen := map[int]bool{}
+		next, ok := 0, true
+		for i := 0; i < n; i++ {
+			e := tenum{name: fmt.Sprintf("%s%d", prefix, i)}
+			v := next
+			if r.Chance(45) {
+				v = lo + r.Intn(hi-lo+1)
+				e.val = ip(v)
+			}
+			if seen[v] || v < lo {
+				ok = false
+				break
+			}
+			seen[v] = true
+			vals[e.name] = v
+			if i == 0 || v >= next {
+				next = v + 1
+			}
+			out = append(out, e)
+		}
+		if ok {
+			return out, vals
+		}
+	}
+}
+
+// a subset of the current list, in order, some entries restating the value they have in the base
+func c02subset(g *c02gen) []tenum {
+	var out []tenum
+	for _, e := range g.curNames {
+		if g.r.Chance(60) {
+			k := tenum{name: e.name}
+			if g.r.Chance(40) {
+				k.val = ip(g.curVals[e.name])
+			}
+			out = append(out, k)
+		}
+	}
+	if len(out) == 0 {
+		out = []tenum{{name: g.curNames[len(g.curNames)-1].name}}
+	}
+	// a further derived level restricts this subset
+	g.curNames = out
+	return out
 }
 
 // a chain of typedefs of one family in one placement: level 0 refers to the built-in, level i to level i-1
@@ -460,7 +517,7 @@ func C02(c *core.Ctx) {
 				l.t = &texpr{name: ref(td)}
 				l.fam = ch.fam.name
 				if len(extra) == 0 || td.where != "local" {
-					if r.Chance(30) {
+					if r.Chance(30) && ch.fam.name != "enumeration" && ch.fam.name != "bits" {
 						ch.fam.narrow(g, 3, l.t)
 					}
 					if len(ch.fam.dflt) > 0 && r.Chance(25) {
@@ -472,6 +529,9 @@ func C02(c *core.Ctx) {
 				fam := core.Pick(r, c02families[:8])
 				l.t = fam.base(g)
 				l.fam = fam.name
+				if fam.name == "enumeration" || fam.name == "bits" {
+					l.list = false
+				}
 			default:
 				l.t = &texpr{name: "union"}
 				for i, n := 0, 2+r.Intn(2); i < n; i++ {
